@@ -71,6 +71,37 @@ for line in sys.stdin:
             for v, s0, e0 in mg:
                 mrows.append([v, mg.to_acgt(v)])
             resp = {"ok": {"kmers": rows, "after": after, "mins": mrows}}
+        elif req["op"] == "acgt_many":
+            # many codes decoded one after the other on ONE object of each class
+            kg = pk.KmerGenerator("ACGT", k)
+            mg = pk.MinimiserGenerator("ACGT", k, k)
+            resp = {"ok": [[kg.to_acgt(x), mg.to_acgt(x)] for x in req["codes"]]}
+        elif req["op"] == "header_mut":
+            # the caller edits the list it got; later answers (same computer, new computer) must not change
+            a = pk.OligoComputer(k)
+            h1 = a.get_header()
+            e = req["edit"] % 6
+            if e == 0:
+                h1.insert(0, "seq_id")
+            elif e == 1:
+                h1.append("label")
+            elif e == 2:
+                h1.sort(reverse=True)
+            elif e == 3 and h1:
+                del h1[0]
+            elif e == 4 and h1:
+                h1[len(h1) // 2] = "X"
+            else:
+                h1.clear()
+            resp = {"ok": [a.get_header(), pk.OligoComputer(k).get_header()]}
+        elif req["op"] == "temporaries":
+            # strings that live only for the constructor call (equal length, different content), one after the other
+            out = []
+            for h in req["seqs"]:
+                ks = [list(t) for t in pk.KmerGenerator(bytes.fromhex(h).decode("utf-8"), k)]
+                ms = [list(t) for t in pk.MinimiserGenerator(bytes.fromhex(h).decode("utf-8"), req["w"], req["m"])]
+                out.append([ks, ms])
+            resp = {"ok": out}
         elif req["op"] == "acgt":
             resp = {"ok": [pk.KmerGenerator("", k).to_acgt(req["x"]), pk.MinimiserGenerator("", k, k).to_acgt(req["x"])]}
         elif req["op"] == "cgr":
